@@ -1478,7 +1478,6 @@ class SpaceManager(SharedSpaceOperations):
 
     def set_cells_property(self, cells, flags, func, enable_cache):
         """Set formula and/or is_enabled"""
-        define = True
         for space in self._get_subs(cells.parent, skip_self=False):
             c = space.cells[cells.name]
             if c is not cells:
@@ -1487,11 +1486,13 @@ class SpaceManager(SharedSpaceOperations):
                 bases = self.get_deriv_bases(c, defined_only=True)
                 if not bases or bases[0] is not cells:
                     continue   # Skip when c's base is not cells
+                # c may have been derived from another cells so far:
+                # take over all the properties of cells
+                space.clear_subs_rootitems()
+                c.on_inherit(self, bases)
+                continue
             space.clear_subs_rootitems()
-            space.cells[cells.name].on_set_property(
-                flags, define, func, enable_cache
-            )
-            define = False  # Do not define derived cells
+            cells.on_set_property(flags, True, func, enable_cache)
 
     def set_cells_allow_none(self, cells, value):
         """Set allow_none of cells and of the sub cells derived from it"""
